@@ -50,6 +50,15 @@ def run(tier, seed):
         it.lenient = True
         it.models[("LogActorAddr", "do_send")] = lambda interp, recv, args: recv.sent.append(args[0]) or ()
         it.models[("OneshotSender", "send")] = lambda interp, recv, args: recv.sent.append(args[0]) or Ok(())
+        saved3 = []
+
+        class IndexAddr3:
+            ty = "IndexAddr"
+        it.models[("IndexAddr", "do_send")] = lambda interp, recv, args: saved3.append(args[0]) or ()
+        it.fn_models["std::fs::remove_file"] = lambda interp, args: Ok(())
+        it.fn_models["fs::remove_file"] = it.fn_models["std::fs::remove_file"]
+        it.fn_models["Self::get_log_path"] = lambda interp, args: "p/log_%s" % (args[1]["id"] if isinstance(args[1], Struct) else "?")
+        it.fn_models["get_log_path"] = it.fn_models["Self::get_log_path"]
         cut = z3.BitVec("cut_index", 64)
         viol = None
         npaths = 0
@@ -61,15 +70,24 @@ def run(tier, seed):
                     rng = Struct("LogRange", {"id": fid, "pre_term": 0, "start_index": start, "record_count": count if count is not None else 0,
                                               "split_off_index": start, "is_close": count is not None, "mark_remove": False})
                     logs.append(Struct("LogRangeWrap", {"log_range": rng, "log_actor": Some(Actor("file-%d" % fid))}))
+                del saved3[:]
                 mgr = Struct("RaftLogManager", {"logs": logs, "current_log_actor": logs[-1]["log_actor"], "base_path": "p", "index_info": NONE, "last_applied_log": 0,
-                                                "index_manager": NONE, "pre_ready_snapshot_pointer": NONE, "last_ready_snapshot_pointer": NONE, "is_init": True})
+                                                "index_manager": Some(IndexAddr3()), "pre_ready_snapshot_pointer": NONE, "last_ready_snapshot_pointer": NONE, "is_init": True})
                 tx = Tx()
                 actors = [w["log_actor"].payload[0] for w in logs]
                 it.call_method("RaftLogManager", "strip_log_to_index", mgr, ["ctx", cut, Some(tx)])
                 kept = [w["log_range"]["id"] for w in mgr["logs"]]
                 cur = mgr["current_log_actor"]
                 cur_name = cur.payload[0].name if isinstance(cur, Enum) and cur.variant == "Some" else None
-                return [(a.name, list(a.sent)) for a in actors], kept, cur_name, list(tx.sent)
+                last_saved = None
+                for m in saved3:
+                    nm = m.variant if isinstance(m, Enum) else (m.name.split("::")[-1] if isinstance(m, Uninterp) else str(m))
+                    pl = m.payload if isinstance(m, Enum) else (m.args if isinstance(m, Uninterp) else None)
+                    if nm == "SaveLogs":
+                        lst = pl[0] if isinstance(pl, (list, tuple)) and len(pl) == 1 and isinstance(pl[0], list) else pl
+                        last_saved = [x["id"] for x in lst]
+                last_open = (mgr["logs"][-1]["log_range"]["is_close"] is False) if mgr["logs"] else True
+                return [(a.name, list(a.sent)) for a in actors], kept, cur_name, list(tx.sent), last_saved, last_open
             it.solver.push()
             it.solver.add(z3.ULE(cut, MAX_CUT))
             paths = it.explore(thunk)
@@ -81,7 +99,7 @@ def run(tier, seed):
                 if exc is not None:
                     viol = {"message": "panic in the log manager: %s" % exc, "tags": ["panic"], "model": {"catalogue": cname}}
                     break
-                sent, kept, cur_name, answers = r
+                sent, kept, cur_name, answers, last_saved, last_open = r
                 bad = []
                 for c in range(MAX_CUT + 1):
                     for (fid, start, count), (an, msgs) in zip(files, sent):
@@ -98,6 +116,16 @@ def run(tier, seed):
                         bad.append((c, "after delete-from %d the current file is %s, the last file of the catalogue is file-%d" % (c, cur_name, want[-1]), "current-file-wrong"))
                     if len(answers) != 1:
                         bad.append((c, "the caller of delete-from is answered %d times" % len(answers), "caller-not-answered"))
+                    # (raft never truncates at or below a snapshot pointer: those entries are committed)
+                    if kept == want and 0 < len(want) < len(files) and (len(files) == 1 or c > files[0][1]):
+                        # whole files left the catalogue: what a restart finds is the catalogue in the index file
+                        if last_saved != kept:
+                            bad.append((c, "delete-from %d removes whole files from the catalogue in memory (files %s stay) but the catalogue saved to the index file is %s: a restart finds the "
+                                           "removed files again - entries of the removed suffix come back, the append position is the removed file's" % (c, kept,
+                                           "not rewritten" if last_saved is None else last_saved), "catalogue-not-saved"))
+                        elif want and not last_open:
+                            bad.append((c, "after delete-from %d the last file of the catalogue (file %d) takes the appends but is still marked closed in the catalogue" % (c, want[-1]),
+                                        "current-file-marked-closed"))
                 # a path covers a region of cut values: is one of its members bad?
                 for c, msg, tag in bad:
                     s.push()
